@@ -14,7 +14,7 @@ from .normalize import _remap, _rename_local, _KEEP
 
 ITER_TRAITS = ('Iterator', 'DoubleEndedIterator')
 STAGES = {'map': 1, 'filter': 1, 'filter_map': 1, 'cloned': 0, 'copied': 0, 'by_ref': 0, 'inspect': 1}
-TERMINALS = {'collect': 0, 'any': 1, 'all': 1, 'find': 1, 'find_map': 1, 'position': 1, 'fold': 2, 'for_each': 1}
+TERMINALS = {'collect': 0, 'any': 1, 'all': 1, 'find': 1, 'find_map': 1, 'position': 1, 'fold': 2, 'for_each': 1, 'try_for_each': 1}
 UNIT = {'k': 'const', 'ty': '()', 'val': '()'}
 
 
@@ -311,7 +311,7 @@ class Lowering:
         src, stages, dead = ch
         # `extend(v, collection)` / collect over a non-iterator (IntoIterator) source: keep a by-value source as is
         cal = None
-        if kind in ('any', 'all', 'find', 'find_map', 'position', 'for_each'):
+        if kind in ('any', 'all', 'find', 'find_map', 'position', 'for_each', 'try_for_each'):
             cal = self.callable_of(raw, t['args'][1])
             if cal is None:
                 return False
@@ -498,6 +498,18 @@ class Lowering:
             r, cur = self.emit_call(B, cur, cal, [_mv(acc), _mv(x)])
             B.use(cur, acc, _mv(r))
             B.goto(cur, head)
+            B.goto(exit_, done)
+        elif kind == 'try_for_each':
+            if not dest_ty.replace(' ', '').startswith('core::result::Result<'):
+                return False
+            r, cur = self.emit_call(B, cur, cal, [_mv(x)], dest_ty)
+            d2 = B.local('isize')
+            B.assign(cur, _pl(d2), {'k': 'discr', 'place': _pl(r)})
+            bad = B.block()
+            B.switch(cur, _mv(d2), [(0, head), (1, bad)], B.unreachable())
+            B.use(bad, dest, _mv(r))
+            B.goto(bad, done)
+            B.assign(exit_, _pl(dest), {'k': 'agg', 'ak': 'adt', 'adt': 'core::result::Result', 'variant': 'Ok', 'fields': [copy.deepcopy(UNIT)], 'field_names': ['0']})
             B.goto(exit_, done)
         elif kind == 'for_each':
             r, cur = self.emit_call(B, cur, cal, [_mv(x)], '()')
